@@ -171,6 +171,12 @@ def pwl_fn_configs(tier):
                   continue   # no free output parameter: documented as rejected (trivial function)
                 out.append(dict(monotonicity=mono, nk=nk, units=units, clamp_min=cmin, clamp_max=cmax,
                                 is_cyclic=cyclic, missing=missing, in_form=in_form))
+  # falsy zeros as missing input / output values (the missing input 0.0 lies inside the keypoint range)
+  for mono in ('increasing', 'none'):
+    out.append(dict(monotonicity=mono, nk=3, units=1, clamp_min=False, clamp_max=False, is_cyclic=False, missing='fixed',
+                    in_form='3d', miss_in=0.0, miss_out=0.0))
+    out.append(dict(monotonicity=mono, nk=3, units=2, clamp_min=False, clamp_max=False, is_cyclic=False, missing='derived',
+                    in_form='3d', miss_in=0.0))
   return out
 
 
@@ -190,9 +196,9 @@ def _pwl_fn_params(kw, symbolic_range=True):
               clamp_min=kw['clamp_min'], clamp_max=kw['clamp_max'], monotonicity=kw['monotonicity'],
               is_cyclic=kw['is_cyclic'])
   if kw['missing']:
-    args['missing_input_value'] = -50.0
+    args['missing_input_value'] = kw.get('miss_in', -50.0)
     if kw['missing'] == 'fixed':
-      args['missing_output_value'] = 0.25
+      args['missing_output_value'] = kw.get('miss_out', 0.25)
   return args
 
 
